@@ -774,6 +774,77 @@ pub fn generate(rng: &mut Rng, opts: &GenOpts) -> OsuFile {
     f
 }
 
+/// A long but plain map (1 500 - 6 000 objects, integer times, mostly circles with a few short sliders, spinners or
+/// holds): the performance calculators have branches that only open beyond ~1 500 / 2 000 / 2 500 hits (length bonuses).
+pub fn long_file(rng: &mut Rng, mode: u8) -> OsuFile {
+    let mut f = OsuFile {
+        version: Some(14),
+        mode,
+        hp: Some(rng.range(0, 10).to_string()),
+        cs: Some(if mode == 3 { rng.range(4, 9).to_string() } else { rng.range(2, 7).to_string() }),
+        od: Some(rng.range(0, 10).to_string()),
+        ar: Some(rng.range(0, 10).to_string()),
+        sm: Some("1.4".into()),
+        tr: Some("1".into()),
+        ..OsuFile::default()
+    };
+    let bl = *rng.pick(&[300.0, 333.333333333333, 400.0, 500.0, 250.0]);
+    f.timing.push(TimingLine {
+        time: "0".into(),
+        beat_len: fnum(bl),
+        meter: "4".into(),
+        uninherited: Some(true),
+        effects: Some(0),
+    });
+    let n = *rng.pick(&[1500usize, 2001, 2501, 2600, 3000, 4000, 6000]) + rng.usize_below(40);
+    let keys = f.cs.as_ref().and_then(|c| c.parse::<i64>().ok()).unwrap_or(4).max(1);
+    let mut t = 500.0;
+    for i in 0..n {
+        let step = *rng.pick(&[bl / 4.0, bl / 2.0, bl / 2.0, bl, bl]);
+        let x = if mode == 3 {
+            let col = rng.range(0, keys - 1);
+            ((col * 512 + 256) / keys).to_string()
+        } else {
+            rng.range(0, 512).to_string()
+        };
+        let y = rng.range(0, 384).to_string();
+        let r = rng.below(100);
+        let (kind, dur) = if r < 4 && mode != 3 {
+            let len = rng.range(40, 200);
+            let d = len as f64 / 140.0 * bl;
+            (
+                ObjKind::Slider {
+                    curve: format!("L|{}:{}", rng.range(0, 512), rng.range(0, 384)),
+                    slides: "1".into(),
+                    length: Some(len.to_string()),
+                    edge_sounds: None,
+                    edge_sets: None,
+                },
+                d,
+            )
+        } else if r < 5 && mode != 3 {
+            let d = rng.range(300, 1500) as f64;
+            (ObjKind::Spinner { end: fnum((t + d).round()) }, d)
+        } else if r < 15 && mode == 3 {
+            let d = rng.range(100, 900) as f64;
+            (ObjKind::Hold { end: fnum((t + d).round()) }, 0.0)
+        } else {
+            (ObjKind::Circle, 0.0)
+        };
+        f.objects.push(ObjLine {
+            x,
+            y,
+            time: fnum(t.round()),
+            extra_type: if i % 7 == 0 { 4 } else { 0 },
+            sound: *rng.pick(&[0u32, 0, 2, 8, 4]),
+            kind,
+            sample: None,
+        });
+        t += step.max(30.0) + dur;
+    }
+    f
+}
+
 /// Build a `ties` timing setup where several distinct beat lengths accumulate *equal* durations,
 /// so that `bpm()` has to break a tie.
 pub fn bpm_tie_file(rng: &mut Rng) -> OsuFile {
